@@ -66,7 +66,7 @@ func init() {
 		Assumptions: append([]string{"TAB-ipv6place: at the end of the reading loop the pieces from index pieceIdx on are still zero and 0 ≤ pieceIdx ≤ 8 (reviewed; the rule itself checks that compress is only ever set to the piece count or the one 'none' constant)"}, commonAssumptions...)})
 	describe(&PropertyDoc{ID: "C09",
 		Explanation: "Order and coverage of the domain pipeline.",
-		Decides:     []string{"percent-decoding precedes ToASCII; the forbidden-domain scan runs over the ToASCII result on every non-lax success path and before the IPv4 test (FLOW-hostpipe)", "the forbidden-domain set is at least the standard's (TAB-forbidden)", "every IDNA conversion goes through the module's lookup profile built with MapForLookup (FLOW-idna)"},
+		Decides:     []string{"percent-decoding precedes ToASCII; the forbidden-domain scan runs over the ToASCII result on every non-lax success path and before the IPv4 test (FLOW-hostpipe)", "the forbidden-domain set is at least the standard's (TAB-forbidden)", "every IDNA conversion goes through the module's lookup profile built with MapForLookup, and the wrapper's successes behind the conversion return what it produced  (FLOW-idna)"},
 		NotDecided:  []string{"UTS #46 behaviour, case independence, the localhost rule"},
 		Assumptions: commonAssumptions})
 	describe(&PropertyDoc{ID: "C10",
